@@ -154,7 +154,7 @@ impl Property for C08 {
     }
     fn run_case(&self, tape: &mut Tape, ctx: &CaseCtx) -> CaseReport {
         let stress = tape.chance(1, 3);
-        let cfg = GenCfg { shadowing: true, scope_stress: stress, max_decls: 12, ..GenCfg::strict() };
+        let cfg = GenCfg { shadowing: true, scope_stress: stress, max_decls: 12, at_name_clash: tape.chance(1, 6), ..GenCfg::strict() };
         let (mut prog, _labels) = Gen::new(tape, cfg).program();
         let negative = if tape.chance(1, 5) { crate::props::c07::inject_scope_error(&mut prog, tape) } else { None };
         let rendered = if tape.chance(1, 3) { render_trivia(&prog, tape) } else { render_plain(&prog) };
